@@ -51,6 +51,7 @@ Min(a, b) == IF a < b THEN a ELSE b
 HdrLen(h) == CASE h = "none" -> 6 [] h = "bare" -> 9 [] h = "pts" -> 14 [] h = "ptsdts" -> 19 [] h = "full" -> 55
 AFTot(a) == CASE a = "none" -> 0 [] a = "rai" -> 2 [] a = "pcr" -> 8 [] a = "raipcr" -> 8 [] a = "priv10" -> 13
               [] a = "rich" -> 33 [] a = "big" -> 183 [] a = "bigrai" -> 179
+              [] a = "huge" -> 193                        \* alone larger than a packet: the call is refused (ErrAdaptationFieldTooBig)
 AFRai(a) == a \in {"rai", "raipcr", "bigrai"}
 
 Init ==
@@ -200,6 +201,16 @@ WriteData(p, len, h, a) ==
              THEN /\ ApplyTables(t) /\ rtx' = rtx1
                   /\ Emit(op, <<>>, 0, t.err, 0)
                   /\ UNCHANGED <<streams, escc, pcr, nextPid, nauto, changedSince, sinceAuto, bigs>>
+             ELSE IF AFTot(a) > 184
+             \* muxer.go: the tables that were due have gone out; then the adaptation field turns out not to fit: error, nothing of the unit
+             \* is written, no counter of the stream is consumed.  Deviation "HugeAFPartial": a partial packet reaches the writer first
+             THEN LET tp == IF doT THEN t.pkts ELSE <<>> IN
+                  /\ IF doT THEN ApplyTables(t) ELSE UNCHANGED <<patVer, patCC, pmtVer, pmtCC, pmDirty, pmtDirty>>
+                  /\ rtx' = IF doT THEN 0 ELSE rtx1
+                  /\ sinceAuto' = IF doT THEN 0 ELSE sinceAuto
+                  /\ changedSince' = IF doT THEN FALSE ELSE changedSince
+                  /\ Emit(op, tp, 188 * Len(tp), "other", IF HasDev("HugeAFPartial") THEN 189 ELSE 0)
+                  /\ UNCHANGED <<streams, escc, pcr, nextPid, nauto, bigs>>
              ELSE LET tp == IF doT THEN t.pkts ELSE <<>>
                       pes == PesPkts(p, escc[p], len, h, a)
                       all == tp \o pes
@@ -215,7 +226,7 @@ WriteData(p, len, h, a) ==
 WritePacket(k) ==
   /\ nops < MaxOps /\ nops' = nops + 1
   /\ LET op == [op |-> "packet", kind |-> k]
-         tooBig == k \in {"toobig", "toobigaf"}
+         tooBig == k \in {"toobig", "toobigaf", "nopltoobig", "hugeaf", "hugeafonly", "hugestuff"}
          hdrBytes == IF k = "toobigaf" THEN 12 ELSE 4
      IN IF tooBig
         THEN Emit(op, <<>>, 0, "other", IF HasDev("HeaderBeforeFitCheck") THEN hdrBytes ELSE 0)
